@@ -271,12 +271,18 @@ def evaluate(rule, prog, scope, ledger_name, floor, only=None):
     now = {}
     findings = []
     oks = []
+    raw = []
     for key, f, bb, span in rule_sites(prog, scope):
         if only is not None and not only(f.path):
             continue
+        raw.append((key, f, bb, span, guard_set(prog, f, bb), dict(SITE_META.get(key, {}))))
+    # conditions a site owes to where it sits: behind a filter adapter, inside a closure handed to a call that is itself conditional
+    extra_now, folded_now = filter_folding(prog, {key: {'fn': f.path, 'bb': bb, 'kind': meta.get('kind'), 'label': meta.get('label') or '', 'guards': gs}
+                                                  for key, f, bb, span, gs, meta in raw})
+    for key, f, bb, span, gs, meta in raw:
         seen.add(key)
-        gs = guard_set(prog, f, bb)
-        now[key] = {'guards': gs, 'fn': f.path, 'meta': dict(SITE_META.get(key, {})), 'span': span}
+        gs = gs + [g for g in extra_now.get(key, []) if g not in gs]
+        now[key] = {'guards': gs, 'fn': f.path, 'bb': bb, 'meta': meta, 'span': span}
         if key not in led:
             findings.append(('unrecorded-rule-site:%s' % key, span, 'a diagnostic / validator call that is not in the precondition ledger (%s); its conditions are %s' % (key, gs)))
             continue
@@ -300,7 +306,8 @@ def evaluate(rule, prog, scope, ledger_name, floor, only=None):
         # a helper, or whose function was renamed, is the same rule as long as the conditions that lead to it - its own plus those of the
         # calls that reach it - are the same. Compare the multisets of (diagnostic, effective conditions).
         e_old = _effective(_old_sites(led))
-        e_now = _effective({k: {'guards': v['guards'], 'fn': v['fn'], 'kind': v['meta'].get('kind'), 'label': v['meta'].get('label'), 'callee': v['meta'].get('callee')} for k, v in now.items()})
+        e_now = _effective({k: {'guards': v['guards'], 'fn': v['fn'], 'kind': v['meta'].get('kind'), 'label': v['meta'].get('label'), 'callee': v['meta'].get('callee'),
+                                'folded': bool(folded_now.get(k))} for k, v in now.items()})
         from collections import Counter
         c_old, c_now = Counter(x[:2] for x in e_old), Counter(x[:2] for x in e_now)
         if c_old == c_now:
@@ -338,6 +345,11 @@ def evaluate(rule, prog, scope, ledger_name, floor, only=None):
                 # a new predicate closure handed to any()/all(): its verdict is a bool the enclosing function has to branch on, and that
                 # branch is in the conditions of whatever it guards - the closure by itself decides nothing
                 continue
+            if what in ('rule-site-removed', 'rule-precondition-changed') and led.get(key, {}).get('folded_into') and what == 'rule-site-removed' \
+                    and all(t not in bad_old and (t in leaf_old) for t in led[key]['folded_into']):
+                continue
+            if what == 'unrecorded-rule-site' and folded_now.get(key) and all(t not in bad_now and (t in leaf_now) for t in folded_now[key]):
+                continue
             if what == 'rule-site-removed' and key in leaf_old and key not in bad_old:
                 continue
             if what == 'unrecorded-rule-site' and key in leaf_now and key not in bad_now:
@@ -367,7 +379,7 @@ def _old_sites(led):
             nm = re.sub(r'<.*$', '', label[5:]).split('(')[0]
             cands = [x for x in fns if re.sub(r'::<.*?>', '', x).endswith('::' + nm)]
             callee = cands[0] if len(cands) == 1 else None
-        out[k] = {'guards': v['guards'], 'fn': fn, 'kind': kind, 'label': label, 'callee': callee}
+        out[k] = {'guards': v['guards'], 'fn': fn, 'kind': kind, 'label': label, 'callee': callee, 'folded': bool(v.get('folded_into'))}
     return out
 
 
@@ -385,6 +397,137 @@ def _adapter_of(prog, fnpath):
             if closure_of_arg(prog, parent, a) is me:
                 return c.name()
     return None
+
+
+# --------------------------------------------------------------------------- filter folding
+_PASS_THROUGH = ('into_iter', 'iter', 'iter_mut', 'map', 'enumerate', 'peekable', 'rev', 'skip', 'take', 'cloned', 'copied', 'chain', 'zip', 'inspect',
+                 'by_ref', 'deref', 'as_slice', 'filter', 'borrow', 'as_ref')
+
+
+def _receiver_chain(f, operand, limit=12):
+    """the calls an iterator value comes from: the call producing the operand, the call producing that call's receiver (args[0]), and so on"""
+    from mirlib import op_place as _opl
+    out = []
+    pl = _opl(operand)
+    seen = set()
+    while pl is not None and limit > 0:
+        limit -= 1
+        if pl['l'] in seen:
+            break
+        seen.add(pl['l'])
+        ds = [d for d in f.defs_of(pl['l']) if d[0] in ('assign', 'call')]
+        if len(ds) != 1:
+            break
+        d = ds[0]
+        if d[0] == 'call':
+            c = d[3]
+            out.append(c)
+            if not c.args or c.name() not in _PASS_THROUGH:
+                break
+            pl = _opl(c.args[0])
+        else:
+            rv = d[3]
+            if rv['k'] in ('use', 'cast'):
+                pl = _opl(rv.get('a'))
+            elif rv['k'] in ('ref', 'rawptr'):
+                pl = rv['p']
+            else:
+                break
+    return out
+
+
+def _val_to_cond(v):
+    m = re.match(r'^un:Not\((.*)\)$', v)
+    if m:
+        return '!(%s)' % m.group(1)
+    m = re.match(r'^(bin|un):(.*)$', v)
+    return m.group(2) if m else v
+
+
+def filter_folding(prog, sites):
+    """sites: key -> dict(fn=path, bb=block, kind, label, guards). Returns (extra, folded_into):
+    extra[key] = conditions that hold for the site because it only sees elements that passed a `filter` adapter upstream of it (the
+    conditions under which the filter's closure answers true, spelled over `elem`); folded_into[key of a predicate-return site of such a
+    closure] = keys of the sites it was folded into. A condition is then the same whether it is written in the body of the loop / for_each
+    closure or in a filter in front of it."""
+    from helpers import closure_of_arg, loop_of
+    by_fn = {}
+    for k, v in sites.items():
+        by_fn.setdefault(v['fn'], []).append(k)
+    extra, folded_into = {}, {}
+    roots = {re.sub(r'(::\{closure#\d+\})+$', '', v['fn']) for v in sites.values()}
+    for rp in sorted(roots):
+        R = prog.fns.get(rp)
+        if R is None:
+            continue
+        for fc in R.calls():
+            if fc.name() != 'filter' or R.blocks[fc.bb].get('cleanup') or len(fc.args) < 2:
+                continue
+            F = closure_of_arg(prog, R, fc.args[1])
+            if F is None:
+                continue
+            rkeys = [k for k in by_fn.get(F.path, []) if sites[k]['kind'] == 'R']
+            contrib = []
+            for k in rkeys:
+                val = sites[k]['label'][len('returns '):]
+                if val == '0':
+                    continue
+                conds = [_norm_elem(g, F.path) for g in sites[k]['guards']]
+                if val != '1':
+                    conds.append(_norm_elem(_val_to_cond(val), F.path))
+                contrib.append(conds)
+            if len(contrib) != 1:
+                continue          # no predicate sites recorded, or a disjunction: not folded
+            pred = contrib[0]
+            targets = []
+            # (a) closures handed to an adapter downstream of the filter
+            for ac in R.calls():
+                if ac is fc or R.blocks[ac.bb].get('cleanup') or not ac.args:
+                    continue
+                if fc not in _receiver_chain(R, ac.args[0]):
+                    continue
+                if ac.name() == 'next':
+                    lp = loop_of(R, ac.bb)
+                    if lp:
+                        targets += [k for k in by_fn.get(R.path, []) if sites[k]['bb'] in lp[1]]
+                    continue
+                for a in ac.args[1:]:
+                    G = closure_of_arg(prog, R, a)
+                    if G is not None and G is not F:
+                        targets += [k for fp, ks in by_fn.items() if fp == G.path or fp.startswith(G.path + '::{closure') for k in ks]
+            # (b) a `for` loop over the filtered iterator: into_iter(filter(..)) then next() in the loop
+            for ic in R.calls():
+                if ic.name() == 'into_iter' and ic.args and fc in _receiver_chain(R, ic.args[0]) + ([fc] if False else []):
+                    for nx in R.calls():
+                        if nx.name() == 'next' and nx.args and ic in _receiver_chain(R, nx.args[0]):
+                            lp = loop_of(R, nx.bb)
+                            if lp:
+                                targets += [k for k in by_fn.get(R.path, []) if sites[k]['bb'] in lp[1]]
+            targets = sorted(set(targets) - set(rkeys))
+            if not targets:
+                continue
+            for k in targets:
+                extra.setdefault(k, [])
+                extra[k] += [c for c in pred if c not in extra[k]]
+            for k in rkeys:
+                folded_into.setdefault(k, set()).update(targets)
+    # a site inside a closure is reached only if the enclosing function reaches the call the closure is handed to: the conditions of that
+    # call are conditions of the site (`if n > 1 { xs.iter().for_each(|x| report(x)) }`)
+    for fp, ks in by_fn.items():
+        m = re.match(r'^(.*)::\{closure#\d+\}$', fp)
+        if not m or m.group(1) not in prog.fns or fp not in prog.fns:
+            continue
+        parent, me = prog.fns[m.group(1)], prog.fns[fp]
+        for c in parent.calls():
+            if parent.blocks[c.bb].get('cleanup'):
+                continue
+            if any(closure_of_arg(prog, parent, a) is me for a in c.args):
+                ctx = [_norm_elem(g, parent.path) for g in guard_set(prog, parent, c.bb) if not _LOOP_HAS_NEXT.match(g)]
+                for k in ks:
+                    extra.setdefault(k, [])
+                    extra[k] += [g for g in ctx if g not in extra[k]]
+                break
+    return extra, folded_into
 
 
 def _balanced_end(t, i):
@@ -482,6 +625,8 @@ def _effective(sites):
         return out
     ms = []
     for k, v in sites.items():
+        if v.get('folded'):
+            continue          # a filter predicate whose conditions are carried by the sites behind the filter
         if v.get('kind') in ('E', 'R'):
             # one entry per distinct effective condition set of the site (how many call chains lead to the same set does not matter)
             own = frozenset(_abstract(canon(_norm_elem(g, v['fn']))) for g in v['guards'] if not _LOOP_HAS_NEXT.match(g))
